@@ -243,6 +243,29 @@ func (x *exec) ownedFieldLoad(st *pstate, ol *ownedFieldLoc, in ssa.Instruction)
 	return x.wrap(t, ty)
 }
 
+// ownedFieldPeek is the current value at an address inside an owned node (the node was opened when
+// the address was taken).
+func (x *exec) ownedFieldPeek(st *pstate, ol *ownedFieldLoc) *smt.Term {
+	c := x.ownedUse(st, ol.r, x.fn.Pos())
+	if c.fields == nil {
+		unsupp("address of a field of an owned node outlives the node's opened state")
+	}
+	oi := x.ownedInfoOf(ol.r.ptr)
+	var t *smt.Term
+	switch f := c.fields[ol.fi].(type) {
+	case *smt.Term:
+		t = f
+	case *ownedRef:
+		t = x.ownedTerm(st, f, x.fn.Pos())
+	}
+	ty := oi.Fields[ol.fi].Type()
+	for _, pe := range ol.path {
+		t = x.env.project(t, ty, pe)
+		ty = pe.T
+	}
+	return t
+}
+
 func (x *exec) ownedFieldStore(st *pstate, ol *ownedFieldLoc, v Val, in ssa.Instruction) {
 	if len(ol.path) == 0 {
 		x.ownedStore(st, ol.r, ol.fi, v, in)
